@@ -50,7 +50,7 @@ func init() {
 }
 
 func runC03(a *A) {
-	r := resolveRoles(a, "C03-R0")
+	r := resolveRolesG(a, "C03-R0", "pt")
 	if r == nil {
 		return
 	}
